@@ -43,7 +43,7 @@ func runC09(c *ShardCtx) {
 	// flag with a comma list, either order - must print the file that the same names give as ONE
 	// comma list (the documented form), and rules named anywhere in it must stay entrypoints
 	if c.Shard == 0 {
-		text := "{\npackage p\n}\nS <- A B C 'x'\nA <- 'a'\nB <- [bc]\nC <- 'c' / 'd'\nD <- 'unused'\n"
+		text := "{\npackage p\n}\nS <- A B C 'x'\nA <- 'a'\nB <- [bc]\nC <- 'c' / 'd'\nD <- \"unused\"\n"
 		call := func(argv []string) *hook.Resp {
 			r, err := c.W.Srv.Call(&hook.Req{Mode: "main", Text: []byte(text), Argv: argv})
 			if err != nil {
@@ -53,6 +53,9 @@ func runC09(c *ShardCtx) {
 		}
 		for _, names := range [][]string{{"A", "B"}, {"B", "A"}, {"A", "D"}, {"A", "B", "C"}, {"D", "C", "A"}} {
 			want := call([]string{"-optimize-grammar", "-alternate-entrypoints", strings.Join(names, ",")})
+			if want.Exit != 0 {
+				panic(&core.HarnessError{Msg: "command line family: the documented form is rejected: " + string(want.Stderr)})
+			}
 			var forms [][]string
 			rep := []string{"-optimize-grammar"}
 			for _, nm := range names {
